@@ -560,6 +560,47 @@ class _TempExtractor(ast.NodeTransformer):
         return out
 
 
+class _KeywordArgs(ast.NodeTransformer):
+    """Calls of a module-level function of the same module by its plain name: every positional argument after the first is passed
+    by keyword instead (`f(a, b, c)` -> `f(a, y=b, z=c)`), when the callee has a plain signature (no *args / positional-only) and
+    the name is not re-bound in the calling function. The first argument stays positional (the natural spelling)."""
+
+    def visit_Module(self, node):
+        self.sigs = {}
+        for st in node.body:
+            if isinstance(st, ast.FunctionDef) and not st.args.vararg and not st.args.posonlyargs:
+                # (functions wrapped by a decorator that may change the calling convention are left alone, except the library's
+                # own script / functional_wrapper decorators, which keep the signature)
+                decos = {ast.unparse(d).split("(")[0] for d in st.decorator_list}
+                if decos <= {"script", "functional_wrapper", "torch.jit.script", "torch.jit.unused", "overload"}:
+                    if "overload" in decos:
+                        self.sigs.pop(st.name, None)
+                        self.sigs[st.name] = None
+                    elif self.sigs.get(st.name, 0) is not None:
+                        self.sigs[st.name] = [a.arg for a in st.args.args]
+        self.sigs = {k: v for k, v in self.sigs.items() if v}
+        self.shadow = [set()]
+        return self.generic_visit(node)
+
+    def visit_FunctionDef(self, node):
+        bound = {n.id for n in ast.walk(node) if isinstance(n, ast.Name) and isinstance(n.ctx, ast.Store)} | {a.arg for a in node.args.args + node.args.kwonlyargs}
+        self.shadow.append(self.shadow[-1] | bound)
+        r = self.generic_visit(node)
+        self.shadow.pop()
+        return r
+
+    def visit_Call(self, node):
+        self.generic_visit(node)
+        if isinstance(node.func, ast.Name) and node.func.id in getattr(self, "sigs", {}) and node.func.id not in self.shadow[-1] \
+                and not any(isinstance(a, ast.Starred) for a in node.args) and not any(k.arg is None for k in node.keywords):
+            names = self.sigs[node.func.id]
+            if 1 < len(node.args) <= len(names) and not ({k.arg for k in node.keywords} & set(names[:len(node.args)])):
+                kws = [ast.keyword(arg=names[i], value=a) for i, a in enumerate(node.args) if i >= 1]
+                node.keywords = kws + node.keywords
+                node.args = node.args[:1]
+        return node
+
+
 def _whole_package_twin(name: str, make, prop: str, repo: str):
     scratch = make_scratch(repo)
     try:
@@ -587,6 +628,7 @@ MECHANICAL_TWINS = [
     ("twin:guard-clauses-to-else", _GuardToElse),
     ("twin:else-to-guard-clauses", _ElseToGuard),
     ("twin:extract-argument-temporaries", _TempExtractor),
+    ("twin:internal-calls-by-keyword", _KeywordArgs),
 ]
 
 
